@@ -252,6 +252,35 @@ class Spy5(Spy):
         return out
 
 
+    def raw_records(self):
+        """the recorded FACTS about every counted call, without any judgement: name, which of the two names the path
+        arguments / descriptor / file object refer to, success, injected, and the arguments that matter - the Lean driver
+        classifies them itself (C05.classify, lean/BoltonsVerif/C05/Classify.lean) and must arrive at `observations()`"""
+        out = []
+        for rec in self.log:
+            if rec['i'] is None:
+                continue
+            call = rec['call']
+            paths = rec.get('paths') or []
+            roles = ''.join({'dest': 'd', 'part': 'p'}.get(self.role(p), 'o') for p in paths)
+            creat = excl = trunc = False
+            mode = rec.get('mode')
+            if call == 'os.open' and 'flags' in rec:
+                fl = rec['flags']
+                creat, excl, trunc = bool(fl & os.O_CREAT), bool(fl & os.O_EXCL), bool(fl & os.O_TRUNC)
+            elif call == 'open' and 'pymode' in rec:
+                m = rec['pymode']
+                creat, excl, trunc = ('w' in m or 'a' in m or 'x' in m), 'x' in m, 'w' in m
+                mode = 0o666
+            same = bool(paths) and os.path.dirname(paths[0]) == os.path.dirname(self.dest)
+            bits = [rec['ok'], rec.get('injected'), rec.get('wr'), creat, excl, trunc, rec.get('created'), same,
+                    rec.get('on_fd'), rec.get('was_closed'), rec.get('performed'), rec.get('appeared')]
+            out.append(';'.join([call, roles, ''.join('1' if b else '0' for b in bits),
+                                 str(mode if isinstance(mode, int) and mode >= 0 else 0),
+                                 (rec.get('data') or '-') if call in ('file.write', 'file.writelines') else '-']))
+        return out
+
+
 class FcntlProxy:
     """stands in for the module attribute `boltons.fileutils.fcntl`: fcntl.fcntl(fd, ...) becomes a counted call"""
 
@@ -730,11 +759,12 @@ class C05(Property):
         return ' '.join(self._head(case) + [
             new_hex(case),
             str(int(o1['out'] == 'ok')), ','.join(o1.get('trace') or []) or '-',
-            str(int(o2['out'] == 'ok')), ','.join(o2.get('trace') or []) or '-'])
+            str(int(o2['out'] == 'ok')), ','.join(o2.get('trace') or []) or '-',
+            ','.join(o1.get('raw') or []) or '-', ','.join(o2.get('raw') or []) or '-'])
 
     def line_history(self, case, obs):
         """HIST <umask> <dest> <part> <step>... : every save of the history with ITS configuration and observed trace
-        (S/<flags>/<perms>/<raises>/<content>/<ok>/<trace>), the moves of the world in between (E/c<mode>, E/d,
+        (S/<flags>/<perms>/<raises>/<content>/<ok>/<trace>/<raw records>), the moves of the world in between (E/c<mode>, E/d,
         E/p<mode>:<hex>, E/u<umask>); the driver judges each save by C05.Accept with the state that save starts from"""
         def f(x):
             return '-' if x is None else '%d:%s' % (x[0], x[1])
@@ -744,7 +774,7 @@ class C05(Property):
             return '/'.join(['S', '%d%d%d%d' % (cfg['ow'], cfg['owp'], cfg['rm'], cfg['txt']),
                              '-' if cfg['perms'] is None else str(cfg['perms']), str(1 if raises else 0),
                              ''.join(op[1:] for op in ops if op[0] == 'w') or '-', str(int(o['out'] == 'ok')),
-                             ','.join(o.get('trace') or []) or '-'])
+                             ','.join(o.get('trace') or []) or '-', ','.join(o.get('raw') or []) or '-'])
         words = ['HIST', str(case['umask']), f(case['dest']), f(case['part']), sv(obs['first'], ops_of(case), case['raises'])]
         for st, so in zip(case['hist'], obs['steps']):
             if st[0] == 's':
@@ -980,7 +1010,7 @@ class C05(Property):
         return {'out': out, 'calls': spy.n, 'dest': look(dest), 'part': look(os.path.join(d, partname)),
                 'extra': [n for n in names if n not in (DEST, partname)], 'log': log, 'pub': pub, 'pub_index': pub_index,
                 'created': created, 'unlink_faulted': unlink_faulted, 'faults': faults, 'appear_at': appear_at,
-                'fault_cls': fault_cls, 'closed_by_body': closed_by_body, 'trace': spy.observations()}
+                'fault_cls': fault_cls, 'closed_by_body': closed_by_body, 'trace': spy.observations(), 'raw': spy.raw_records()}
 
     def render(self, case, obs):
         """what an accepted, executable trace must give: the REAL destination and part file"""
@@ -990,7 +1020,7 @@ class C05(Property):
             return '-' if x is None else '%d:%s' % (x[0], x[1])
 
         def half(o):
-            s = 'acc=0 exec=ok nat=ok dest=%s part=%s' % (f(o['dest']), f(o['part']))
+            s = 'acc=0 exec=ok nat=ok cls=ok dest=%s part=%s' % (f(o['dest']), f(o['part']))
             if o['extra']:
                 s += ' extra=' + ','.join(o['extra'])      # the model knows two names only
             return s
